@@ -565,6 +565,10 @@ func (ev *evaluator) node(e *env, n *Node) {
 			simple("i", e.str(n.E))
 		case "box":
 			simple("b", e.str(n.E))
+		case "flush":
+			// the block is rendered where the call stands, in the caller's scope ({ children... }
+			// inside it are the enclosing template's children)
+			ev.list(e, n.Kids, true)
 		case "index0":
 			simple("em", "zero")
 		case "index1":
